@@ -35,3 +35,10 @@ void size_cap(uint64_t bytes);
 extern void (*io_hook)(int kind);
 
 }  // namespace vfs
+
+namespace vfs {
+// Crash image: the content of `path` after the first k mutating operations (write/truncate, in log
+// order, of that path) plus the first b bytes of operation k+1 (if it is a write).
+std::vector<uint8_t> crash_image(const std::vector<Op> & log, const std::string & path, size_t k, size_t b);
+size_t count_mutations(const std::vector<Op> & log, const std::string & path);
+}
